@@ -83,6 +83,14 @@ func (x *Exec) execDefer(st *State, fr *Frame, d *ssa.Defer) {
 	fr.defers = append(fr.defers, rec)
 }
 
+// finishPlain completes a call without looking at annotations or once sections.
+func (x *Exec) finishPlain(st *State, fr *Frame, retTo ssa.Value, deferred bool) {
+	if deferred {
+		return
+	}
+	fr.pc++
+}
+
 // finish completes a call instruction in the current frame.
 func (x *Exec) finish(st *State, fr *Frame, retTo ssa.Value, res Val, deferred bool) {
 	if deferred {
@@ -91,6 +99,13 @@ func (x *Exec) finish(st *State, fr *Frame, retTo ssa.Value, res Val, deferred b
 	if retTo != nil {
 		fr.regs[retTo] = res
 		if call, ok := retTo.(*ssa.Call); ok {
+			if f := call.Call.StaticCallee(); f != nil && f.Name() == "Do" && funcKey(f, x.pkg.Pkg) == "(*sync.Once).Do" {
+				if in, has := st.ghost["onceIn"]; has {
+					o := st.asTerm(x.normArg(st, x.val(st, fr, call.Call.Args[0])), nil)
+					st.ghost["onceIn"] = st.def("onceIn", tStore(in, o, tFalse))
+					st.ghost["onceDone"] = st.def("onceDone", tStore(st.ghost["onceDone"], o, tTrue))
+				}
+			}
 			if _, anns := x.siteAnns(st, fr, call.Call.Pos()); len(anns) > 0 {
 				env := x.siteEnvCall(st, fr, &call.Call)
 				if res != nil {
@@ -187,6 +202,23 @@ func (x *Exec) callFunc(st *State, fr *Frame, retTo ssa.Value, fn *ssa.Function,
 	key := funcKey(fn, x.pkg.Pkg)
 	if done, more := x.intrinsic(st, fr, retTo, key, fn, args, pos, deferred); done {
 		return more
+	}
+	if key == "(*sync.Once).Do" {
+		if in, ok := st.ghost["onceIn"]; ok {
+			if cl, isClosure := args[1].(*ClosureV); isClosure {
+				o := st.asTerm(x.normArg(st, args[0]), nil)
+				// the function may already have run (on this or another goroutine): then Do only waits for it
+				other := st.fork()
+				ofr := other.top()
+				other.ghost["onceDone"] = other.def("onceDone", tStore(other.ghost["onceDone"], o, tTrue))
+				other.path = append(other.path, "once:already-done@"+posStr(x.fset, pos))
+				x.finishPlain(other, ofr, retTo, deferred)
+				// first call: run it inside the once section
+				st.ghost["onceIn"] = st.def("onceIn", tStore(in, o, tTrue))
+				more := x.callFunc(st, fr, retTo, cl.Fn, cl.Bind, nil, pos, deferred, nil)
+				return append(more, other)
+			}
+		}
 	}
 	isBound := strings.HasSuffix(fn.Name(), "$bound") || strings.HasSuffix(fn.Name(), "$thunk")
 	if c := x.specs.Contracts[key]; c != nil && !isBound && !(len(st.frames) == 1 && false) {
@@ -741,6 +773,7 @@ func (x *Exec) execAppend(st *State, fr *Frame, cc *ssa.CallCommon, args []Val, 
 	t = st.asSlice(args[1], et)
 	newLen := st.def("applen", app(sBV(64), nil, "bvadd", s.Len, t.Len))
 	inplace := st.def("inplace", app(sBool, nil, "bvsle", newLen, s.Cap))
+	x.publishedCheck(st, fr, s.Arr, tAnd(inplace, app(sBool, nil, "bvslt", bv64(0), t.Len)), nil)
 	rf := st.freshRef("app")
 	R := st.def("appref", tIte(inplace, s.Arr, rf))
 	off := st.def("appoff", tIte(inplace, s.Off, bv64(0)))
